@@ -8,8 +8,9 @@
    terminators present, zero-size entries excluded from greedy loops, ...; false for the
    combinators of proof stage 2), domb pod s v : v is in the derived domain of s in that mode,
    delimited s : s is self-delimiting (otherwise it consumes the rest of its window). *)
-From Coq Require Import NArith ZArith List Bool.
-From HV Require Import Base.Bytes Spec.Spec Spec.SpecLemmas Spec.SpecSize Spec.SpecProofs Spec.SpecReject Spec.SpecAdapters.
+From Coq Require Import NArith ZArith List Bool Permutation.
+From HV Require Import Base.Bytes Spec.Spec Spec.SpecLemmas Spec.SpecSize Spec.SpecProofs Spec.SpecReject Spec.SpecAdapters
+     Spec.SpecOrder.
 Import ListNotations.
 Open Scope N_scope.
 
@@ -379,3 +380,77 @@ Qed.
 Example C08_ex_calc_size_tuple_cstr :
   calc_size (STuple [SPrim (PI (IP false W1)); SCStr [0] true true]) = None.
 Proof. reflexivity. Qed.
+
+(* ---------- insertion order of dict-valued values ----------
+   A Python dict is the same value whatever its insertion order.  The model writers only ever LOOK a dict UP (the
+   enclosing dict as ParseContext included), so a duplicate-free association list and any permutation of it are
+   written to the same bytes, and what is read back is the canonical (declaration-ordered) dict. *)
+
+(* the context of any spec is only looked up *)
+Theorem C08_order_ctx : forall e s c c' v, same_map c c' -> ser e s c v = ser e s c' v.
+Proof. exact ser_ctx_ext. Qed.
+Print Assumptions C08_order_ctx.
+
+Theorem C08_order_template : forall e fs skip rc c kvs kvs',
+  Permutation kvs kvs' -> NoDup (map fst kvs) ->
+  ser e (STemplate fs skip rc) c (VDict kvs) = ser e (STemplate fs skip rc) c (VDict kvs').
+Proof. exact ser_template_order. Qed.
+Print Assumptions C08_order_template.
+
+Theorem C08_order_flagswitch : forall e tbl ip cs c kvs kvs',
+  Permutation kvs kvs' -> NoDup (map fst kvs) ->
+  ser e (SFlagSwitch tbl ip cs) c (VDict kvs) = ser e (SFlagSwitch tbl ip cs) c (VDict kvs').
+Proof. exact ser_flagswitch_order. Qed.
+Print Assumptions C08_order_flagswitch.
+
+Theorem C08_order_bitfield : forall e fs shift s c kvs kvs',
+  Permutation kvs kvs' -> NoDup (map fst kvs) ->
+  ser e (SAdapter (ABitField fs shift) s) c (VDict kvs) = ser e (SAdapter (ABitField fs shift) s) c (VDict kvs').
+Proof. exact ser_bitfield_order. Qed.
+Print Assumptions C08_order_bitfield.
+
+(* whatever insertion order is written, the canonical dict is read back, with exact framing *)
+Theorem C08_rt_flagswitch_any_order : forall e pod tbl ip cs c cd kvs kvs' b rest,
+  wf (SFlagSwitch tbl ip cs) = true -> agree (refs (SFlagSwitch tbl ip cs)) c cd ->
+  domb e pod (SFlagSwitch tbl ip cs) c (VDict kvs) = true ->
+  Permutation kvs kvs' -> NoDup (map fst kvs) ->
+  ser e (SFlagSwitch tbl ip cs) c (VDict kvs') = Some b ->
+  (delimited (SFlagSwitch tbl ip cs) = true \/ rest = []) ->
+  de e pod (SFlagSwitch tbl ip cs) cd (b ++ rest) = Some (VDict kvs, rest).
+Proof. exact rt_flagswitch_any_order. Qed.
+Print Assumptions C08_rt_flagswitch_any_order.
+
+Theorem C08_rt_template_any_order : forall e pod fs skip rc c cd kvs kvs' b rest,
+  wf (STemplate fs skip rc) = true -> agree (refs (STemplate fs skip rc)) c cd ->
+  domb e pod (STemplate fs skip rc) c (VDict kvs) = true ->
+  Permutation kvs kvs' -> NoDup (map fst kvs) ->
+  ser e (STemplate fs skip rc) c (VDict kvs') = Some b ->
+  (delimited (STemplate fs skip rc) = true \/ rest = []) ->
+  de e pod (STemplate fs skip rc) cd (b ++ rest) = Some (VDict kvs, rest).
+Proof. exact rt_template_any_order. Qed.
+Print Assumptions C08_rt_template_any_order.
+
+(* the seeded example: FlagSwitch {A: U8, B: U16, C: U32}, value written as {C: 0x44444444, A: 0x11} *)
+Definition ex_fs : spec :=
+  SFlagSwitch [(0, 1%Z); (1, 2%Z); (2, 4%Z)] (IP false W1)
+              [(0, 1%Z, SPrim (PI (IP false W1))); (1, 2%Z, SPrim (PI (IP false W2))); (2, 4%Z, SPrim (PI (IP false W4)))].
+
+Example C08_ex_order_flagswitch :
+  let canon := [(0, VInt 17); (2, VInt 1145324612)] in
+  let written := [(2, VInt 1145324612); (0, VInt 17)] in
+  Permutation canon written /\ NoDup (map fst canon) /\
+  wf ex_fs = true /\ domb true false ex_fs [] (VDict canon) = true /\
+  ser true ex_fs [] (VDict written) = Some [5; 17; 68; 68; 68; 68] /\
+  forall rest, de true false ex_fs [] ([5; 17; 68; 68; 68; 68] ++ rest) = Some (VDict canon, rest).
+Proof.
+  cbv zeta.
+  assert (HP : Permutation [(0, VInt 17); (2, VInt 1145324612)] [(2, VInt 1145324612); (0, VInt 17)]) by apply perm_swap.
+  assert (ND : NoDup (map fst [(0, VInt 17); (2, VInt 1145324612)])).
+  { cbn [map fst]. constructor; [intros [H|[]]; discriminate H|]. constructor; [intros []|constructor]. }
+  split; [exact HP|]. split; [exact ND|]. split; [reflexivity|]. split; [vm_compute; reflexivity|].
+  split; [vm_compute; reflexivity|].
+  intro rest.
+  unfold ex_fs.
+  apply (C08_rt_flagswitch_any_order true false _ _ _ [] [] _ [(2, VInt 1145324612); (0, VInt 17)]);
+    [reflexivity|apply agree_nil|vm_compute; reflexivity|exact HP|exact ND|vm_compute; reflexivity|left; reflexivity].
+Qed.
